@@ -118,7 +118,7 @@ pub fn run(ctx: &Ctx) -> Report {
                 let nontrivial = matches!(r, Ok(true));
                 rep.case(if nontrivial { Some(fnv(format!("{:?}{:?}{:?}", g.layout, g.progs, ex.picks).as_bytes())) } else { None });
                 rep.extra_add("scheduling_points_monitored", ex.sched_steps);
-                rep.label(match s { Sched::Walk(_) => "strategy:random walk", Sched::Pct { .. } => "strategy:PCT", Sched::Preempt2 { .. } => "strategy:two preemptions (sampled)", _ => "strategy:single preemption (enumerated)" });
+                rep.label(match s { Sched::Walk(_) => "strategy:random walk", Sched::Pct { .. } => "strategy:PCT", Sched::Preempt2 { .. } => "strategy:two preemptions (sampled)", Sched::Segments(_) => "strategy:explicit multi-preemption segments (sampled)", _ => "strategy:single preemption (enumerated)" });
                 rep.label(["layout:plain", "layout:sharded", "layout:stacked over plain", "layout:stacked over sharded"][g.layout.kind as usize % 4]);
                 if g.layout.shared_handle {
                     rep.label("shared handle");
